@@ -1,7 +1,9 @@
 #!/usr/bin/env python3
 """Re-run the quick checks against every kept seeded change on the current /repo HEAD (apply, run,
 undo) and record the outcome in seeded/<id>/meta.json under "recheck".  Never run while anything
-else uses /repo.  Usage: tools/reeval.py [id-prefix ...]"""
+else uses /repo.  Usage: tools/reeval.py [id-prefix ...]
+REEVAL_TARGET=<scratch checkout at /repo's HEAD> applies the changes there instead of /repo (the
+checks then run with VERIF_DEV_REPO); REEVAL_SHARD=i/n takes every n-th change, REEVAL_JOBS=j workers."""
 import glob
 import json
 import os
@@ -13,22 +15,30 @@ sh = lambda c, **kw: subprocess.run(c, shell=True, text=True, stdout=subprocess.
 head = sh("git -C /repo log --format=%h -1").stdout.strip()
 sel = sys.argv[1:]
 rows = []
-for d in sorted(glob.glob("/verif/seeded/*/")):
+TARGET = os.environ.get("REEVAL_TARGET", "/repo")
+cenv = dict(os.environ)
+if TARGET != "/repo":
+    cenv.update(VERIF_DEV_REPO=TARGET, PYTHONPATH=TARGET)
+shard, nshard = (int(x) for x in os.environ.get("REEVAL_SHARD", "0/1").split("/"))
+jobs = os.environ.get("REEVAL_JOBS")
+for num, d in enumerate(sorted(glob.glob("/verif/seeded/*/"))):
     sid = os.path.basename(d.rstrip("/"))
     if sel and not any(sid.startswith(s) for s in sel):
         continue
+    if num % nshard != shard:
+        continue
     mp = d + "meta.json"
     meta = json.load(open(mp))
-    assert sh("git -C /repo status --porcelain -- canopen").stdout.strip() == "", "repo dirty"
-    chk = sh(f"git -C /repo apply --check {d}patch.diff")
+    assert sh(f"git -C {TARGET} status --porcelain -- canopen").stdout.strip() == "", "repo dirty"
+    chk = sh(f"git -C {TARGET} apply --check {d}patch.diff")
     rec = {"head": head, "applies": chk.returncode == 0}
     if rec["applies"]:
-        assert sh(f"git -C /repo apply {d}patch.diff").returncode == 0
+        assert sh(f"git -C {TARGET} apply {d}patch.diff").returncode == 0
         try:
             det = {}
             for c in meta.get("ran") or [f"checks.{sid[:3].lower()} --tier quick"]:
                 t0 = time.time()
-                r = sh(f"cd /verif && /venv/bin/python -m {c}", timeout=3000)
+                r = sh(f"cd /verif && /venv/bin/python -m {c}" + (f" --jobs {jobs}" if jobs else ""), timeout=3000, env=cenv)
                 name = c.split()[0].split(".")[-1].upper()
                 det[name] = {"rc": r.returncode, "wall_s": round(time.time() - t0, 1),
                              "sigs": [l.strip()[:200] for l in r.stdout.splitlines() if "signature=" in l][:3]}
@@ -36,9 +46,10 @@ for d in sorted(glob.glob("/verif/seeded/*/")):
             rec["detected_by"] = [n for n, x in det.items() if x["rc"] == 1]
             rec["machinery_failure"] = [n for n, x in det.items() if x["rc"] not in (0, 1)]
         finally:
-            sh("git -C /repo checkout -- .")
+            sh(f"git -C {TARGET} checkout -- .")
     meta["recheck"] = rec
     json.dump(meta, open(mp, "w"), indent=1)
     rows.append((sid, rec["applies"], rec.get("detected_by"), rec.get("machinery_failure")))
     print(sid, "applies" if rec["applies"] else "NO-LONGER-APPLIES", rec.get("detected_by"), rec.get("machinery_failure") or "", flush=True)
-sh("cd /verif && git checkout -- evidence")      # evidence written while a change was applied is not kept
+if nshard == 1:
+    sh("cd /verif && git checkout -- evidence")      # evidence written while a change was applied is not kept
